@@ -298,7 +298,13 @@ def plain_dims(x):
 def inplace_dims(x):
     """axes that in-place relabel / rename steps may touch: no grouped axis of any size (renaming or relabelling a
     grouped axis, even a one-member one, desynchronises it from its members: the KF-D25 family)"""
+    if _CTX.get("inplace_names") is not None:
+        # decided once on the history-laden array, so that the same step touches the same dimension on its twin
+        return [i for i, ax in enumerate(x.axes) if ax.name in _CTX["inplace_names"]]
     return [i for i, ax in enumerate(x.axes) if not grp(ax) and not is_grouped(ax)]
+
+
+_CTX = {}
 
 
 def pick_label(x, d, k):
@@ -588,8 +594,12 @@ def run_history(case, allow_kf_pattern=False):
             what = "step %d %s(%d,%d) on pool[%d] dims=%s (second: pool[%d] dims=%s)" % (si, fn.__name__, k, m, i % len(pool), list(x.dims), j % len(pool), list(y.dims))
             if tag in ("relabel", "rename", "assign", "index", "reindex") and not plain_dims(x):
                 continue
-            if tag in ("relabel", "rename") and not inplace_dims(x):
-                continue
+            _CTX["inplace_names"] = None
+            if tag in ("relabel", "rename"):
+                names_ = [x.axes[i_].name for i_ in inplace_dims(x)]
+                if not names_:
+                    continue
+                _CTX["inplace_names"] = names_
             if y is not x and (has_group(x) or has_group(y)):
                 # binary operations between differently grouped arrays go through reshape(), which parses commas in
                 # dimension names: the freshly built equivalent (a plain axis named 'x,y') is outside the stated domain
